@@ -7,7 +7,7 @@ RULE = ("texts = toml-test corpus + seeded single/double-edit mutants (one symbo
 
 
 def run(ctx):
-    parsecheck.run_parse(ctx, {"corpus", "mutants", "gen", "doc"}, {"verdict", "panic"})
+    parsecheck.run_parse(ctx, {"corpus", "mutants", "gen", "dates", "doc"}, {"verdict", "panic"})
     return ctx.finish("model_checking", RULE)
 
 
